@@ -16,7 +16,7 @@ func init() {
 		Rule: "one run = one generated application whose external functions switch language at arbitrary points (LANG with valid 2- and 3-letter codes, invalid strings, several switches), default language by configuration or none, translations present for a drawn subset of templates and menu labels + a history with restarts at every boundary in half of the runs; " +
 			"two resource stacks: the harness resource (language observed on the context of every GetTemplate/GetMenu/FuncFor/EntryFunc call) and the library's DbResource over a recording store (language observed on every store lookup, fallback observed on the page); " +
 			"non-trivial = at least one language switch followed by a lookup, or a lookup with a missing translation; distinct = distinct sequences of (node, language)",
-		Runs:       map[string]int{"quick": 30000, "thorough": 1000000},
+		Runs:       map[string]int{"quick": 30000, "thorough": 3500000},
 		MaxSeconds: map[string]int{"quick": 40, "thorough": 900},
 		Run:        runC18,
 		Assumptions: []string{
